@@ -302,7 +302,9 @@ func (p IndexVectorVamanaParameters) Validate() error {
 	if p.DegreeBound < 32 || p.DegreeBound > 64 {
 		return fmt.Errorf("degree bound must be between 32 and 64, got %d", p.DegreeBound)
 	}
-	if p.Alpha < 1.1 || p.Alpha > 1.5 {
+	// Written as a negated conjunction so that NaN, for which every comparison is
+	// false, is rejected as well
+	if !(p.Alpha >= 1.1 && p.Alpha <= 1.5) {
 		return fmt.Errorf("alpha must be between 1.1 and 1.5, got %f", p.Alpha)
 	}
 	if p.Quantizer != nil {
